@@ -155,17 +155,6 @@ Proof.
 Qed.
 
 (* P4: encrypt under the session stored under [na], store the incremented counter, send *)
-Lemma alist_set_uniq {A} (k : naddr) (v x : A) l :
-  NoDup (map fst l) -> In (k, x) (alist_set k v l) -> x = v.
-Proof.
-  induction l as [| [k' v'] r IH]; cbn [alist_set map fst].
-  - intros _ [H | []]. inversion H; reflexivity.
-  - intros Hn. inversion Hn as [| a b H1 H2]; subst. destruct (naddr_eqb k k') eqn:E.
-    + apply naddr_eqb_eq in E. subst. intros [H | H]; [inversion H; reflexivity |].
-      exfalso. apply H1. apply in_map_iff. exists (k', x). auto.
-    + intros [H | H]; [inversion H; subst; rewrite naddr_eqb_refl in E; discriminate | auto].
-Qed.
-
 Lemma J_encrypt H G h na se d src r aad m :
   J H G h -> In (na, se) (sessions h) ->
   J (H ++ [OWire d (PMsg src (s_counter se + 1, r) aad (CEnc (s_enc se) (s_counter se + 1, r) m aad))])
